@@ -34,6 +34,7 @@ type renderCase struct {
 	Spread     bool            `json:"options_passed_as_slice_then_overwritten,omitempty"`          // Renderer(slice...) and the caller reuses the slice afterwards: the middleware keeps the options it was created with
 	JSONGo     string          `json:"json_go_value,omitempty"`                                     // json: the value is this Go value instead of json_value: nil-slice ([]string(nil)) | nil-map | nil-ptr | empty-slice | nil-in-struct. The body is what the standard encoder writes for it
 	EditCT     bool            `json:"earlier_response_edited_its_content_type_in_place,omitempty"` // an earlier request of the same kind on the same instance appended to element 0 of its own Content-Type header value (in place, through the header map)
+	FailFirst  string          `json:"earlier_render_failed,omitempty"`                             // an earlier request (same instance, or another instance of the process) rendered a value that cannot be encoded: xml-late (fails after several KiB of output) | json (fails at once). Nothing of it may reach this response
 	EnvMade    string          `json:"env_when_renderer_was_created,omitempty"`                     // process environment while Renderer(...) was called ("" = untouched; serial cases only)
 	EnvServed  string          `json:"env_when_request_was_served,omitempty"`                       // process environment while the request was served: what is rendered depends on neither
 }
@@ -129,6 +130,7 @@ func genRenderCase(rng *rand.Rand) *renderCase {
 		PresetCT:   rng.Intn(4) == 0,
 		Spread:     rng.Intn(6) == 0,
 		EditCT:     rng.Intn(8) == 0,
+		FailFirst:  []string{"", "", "", "", "", "", "", "", "xml-late", "json"}[rng.Intn(10)],
 	}
 	switch c.Kind {
 	case "json":
@@ -269,6 +271,13 @@ func renderVerdict(c *renderCase, o renderObs) string {
 		}
 	}
 	return ""
+}
+
+// c17Unencodable: rows first, then a member no encoder accepts.
+type c17Unencodable struct {
+	Rows []xmlItem      `xml:"row" json:"rows"`
+	Bad  map[string]int `xml:"bad" json:"-"`
+	Ch   chan int       `xml:"-" json:"ch"`
 }
 
 type c17Holder struct {
@@ -439,6 +448,26 @@ func judgeRender(w *core.W, c *renderCase) {
 				<-otherDone
 			}
 		}()
+		if c.FailFirst != "" {
+			bad := c17Unencodable{Bad: map[string]int{"x": 1}, Ch: make(chan int)}
+			for i := 0; i < 300; i++ {
+				bad.Rows = append(bad.Rows, xmlItem{K: fmt.Sprintf("leftover-row-%d", i), V: "LEFTOVER-FROM-A-FAILED-RENDER"})
+			}
+			g := flamego.NewWithLogger(io.Discard)
+			g.Use(flamego.Renderer())
+			g.Get("/bad", func(r flamego.Render) {
+				if c.FailFirst == "json" {
+					r.JSON(200, bad)
+				} else {
+					r.XML(200, bad)
+				}
+			})
+			func() {
+				defer func() { _ = recover() }()
+				g.ServeHTTP(&retSpy{h: http.Header{}}, &http.Request{Method: "GET", URL: &url.URL{Path: "/bad"}, Header: http.Header{}})
+			}()
+			w.Count("earlier-render-failed:" + c.FailFirst)
+		}
 		if c.EditCT {
 			f.ServeHTTP(&retSpy{h: http.Header{}}, &http.Request{Method: "POST", URL: &url.URL{Path: target}, Header: http.Header{"X-Prime": {"1"}}})
 			w.Count("earlier-response-edited-its-content-type-in-place")
@@ -541,7 +570,7 @@ func runC17(r *core.Run) {
 	ws.Done()
 	ws.Merge()
 	r.GateCounter("environment-varied", 300)
-	for _, k := range []string{"kind:json", "kind:xml", "kind:binary", "kind:text", "where:app", "where:group", "where:route", "custom-charset", "indented:json", "indented:xml", "overlapping-requests", "content-type-preset", "json-value-implementing-error", "nested-renderers", "options-slice-overwritten-after-creation", "earlier-response-edited-its-content-type-in-place", "json-go-value:nil-slice"} {
+	for _, k := range []string{"kind:json", "kind:xml", "kind:binary", "kind:text", "where:app", "where:group", "where:route", "custom-charset", "indented:json", "indented:xml", "overlapping-requests", "content-type-preset", "json-value-implementing-error", "nested-renderers", "options-slice-overwritten-after-creation", "earlier-response-edited-its-content-type-in-place", "json-go-value:nil-slice", "earlier-render-failed:xml-late", "earlier-render-failed:json"} {
 		r.GateCounter(k, 500)
 	}
 	r.Gate("distinct_nontrivial", r.NonTrivialCount(), 5000)
